@@ -29,6 +29,11 @@ class StepBudgetExceeded(BaseException):
     """Raised inside a simulated thread whose call ran 10x longer than alone (deterministic: steps, not time)."""
 
 
+class SimDeadlock(BaseException):
+    """Raised inside a simulated thread that can never acquire a library lock: it already holds it (non-reentrant
+    lock re-acquired by a nested call) or every live thread waits for a lock held by another (deterministic)."""
+
+
 class _TLS(threading.local):
     tid = None
 
@@ -112,6 +117,17 @@ def set_mode(mode: str | None) -> None:
     _mode = mode
 
 
+def code_name(code_id: int) -> str:
+    """Process-independent name of a library code object (for ordering; ids differ between processes)."""
+    global _names
+    if not _names:
+        _names = {id(c): f"{c.co_filename[len(_lib_prefix):]}:{c.co_firstlineno}:{c.co_name}" for c in _codes}
+    return _names.get(code_id, "?")
+
+
+_names: dict = {}
+
+
 def loc_str(code, arg) -> str:
     fn = code.co_filename[len(_lib_prefix):]
     return f"{fn}:{code.co_name}:{arg}"
@@ -154,6 +170,8 @@ class Sim:
         self.trace: list = []          # location ids per step (single-thread tracing only)
         self.lock_ops = 0
         self.lock_contended = 0
+        self._spin = (-1, 0)            # (gstep of the last contended yield, consecutive yields without a step)
+        self.watch = None               # shared_state.Watch polled before every step (single-thread tracing only)
 
     # -- called from the monitoring callback, in the running simulated thread
     def step(self, tid, code, arg):
@@ -161,6 +179,8 @@ class Sim:
         s = self.steps[tid] = self.steps[tid] + 1
         if self.record_trace:
             self.trace.append((id(code), arg))
+        if self.watch is not None:
+            self.watch.poll(g)
         if s > self.budgets[tid]:
             self.budgets[tid] = s + 20_000   # raise again if the unwinding code keeps spinning
             raise StepBudgetExceeded(f"thread {tid} exceeded its step budget")
@@ -183,11 +203,19 @@ class Sim:
 
     def yield_to(self, frm, to):
         """Cooperative yield (contended simulated lock)."""
-        if to is None or not self.live[to] or to == frm:
+        if to == frm:
+            raise SimDeadlock(f"thread {frm} waits for a non-reentrant lock it already holds")
+        if to is None or not self.live[to]:
             others = [t for t in range(self.n) if self.live[t] and t != frm]
             if not others:
-                raise HarnessError("simulated deadlock: lock held by nobody runnable")
+                raise SimDeadlock(f"thread {frm} waits for a lock whose holder is gone")
             to = others[0]
+        g, k = self._spin
+        k = k + 1 if g == self.gstep else 1
+        self._spin = (self.gstep, k)
+        if k > 2 * self.n + 2:
+            # every hand-over came straight back without a single library step in between: a lock cycle
+            raise SimDeadlock(f"thread {frm}: all live threads wait for locks held by each other")
         self.lock_contended += 1
         self._handoff(frm, to)
 
